@@ -216,7 +216,7 @@ def run(report: Report, tier, seed):
     nacc = sum(len(r["accepted"]) for r in cr)
     report.ob(Ob(id="O5.6/constructors-x-type-vectors", function="every public expression constructor of pyteal (pt.__all__, App/Box/*Param/*Holding builders, control-flow builders)", kind="E",
                  status="refuted" if cbad else ("discharged" if nacc >= 100 else "undecided"), backend=f"enumeration({len(cn)} constructors x {{uint64, bytes}}^k, k <= 3, exhaustive)",
-                 detail=f"{sum(r['tried'] for r in cr)} argument vectors tried, {nacc} accepted and compiled; each accepted program applies no opcode to a value of a definitely wrong type (spec/tealcheck over spec/langspec signatures)",
+                 detail=f"{sum(r['tried'] for r in cr)} argument vectors tried, {nacc} accepted and compiled; each accepted program keeps stack and type discipline (every clause of spec/tealcheck.discipline, op signatures from spec/langspec)",
                  model=[{"constructor": r["name"], **{k: v for k, v in r["problems"][0].items() if k != "teal"}} for r in cbad[:3]] or None))
     for b in cbad[:2]:
         p0 = b["problems"][0]
